@@ -432,8 +432,10 @@ def client_run(seed, fault_rate, n_updates_max=3):
         # a request of a correct client, sent for the first time, was refused: the submission cannot complete
         return None, {"error": str(e), "faults": tr.n_faults, "requests": len(tr.log), "fast": [s["fast"] for s in subs], "retry_refused": 0}
     if res.kind != "ok":
+        # the submission of a correct client ended in a database error / a crash of the code under test: it cannot complete
         w.close()
-        raise RuntimeError(f"client run failed: {res}")
+        return None, {"error": f"submission failed: {res}"[:300], "faults": tr.n_faults, "requests": len(tr.log), "fast": [s["fast"] for s in subs],
+                      "retry_refused": 0}
     ups = sorted(w.rows("batch_updates"), key=lambda r: r["update_id"])
     # which update belongs to which submission: by the order of creation of distinct tokens
     toks = []
